@@ -735,7 +735,10 @@ def digest_log(engine, prop, tier, master, n, path):
         for i in range(n):
             seed = derive_seed(master, prop, i)
             sc = engine.gen(Tape(seed), prop, tier)
-            kind, res = run_isolated(engine, sc, prop) if getattr(engine, 'CRASHY', False) else ('ok', engine.execute(sc, prop))
+            try:
+                kind, res = run_isolated(engine, sc, prop) if getattr(engine, 'CRASHY', False) else ('ok', engine.execute(sc, prop))
+            except InvalidScenario:
+                kind, res = 'invalid', None
             if kind != 'ok':
                 f.write('%d %d %s\n' % (i, seed, kind))
                 continue
